@@ -11,7 +11,8 @@ Import ListNotations.
 From RX Require Import Generated.
 From RX.Model Require Import Base CharClass Stream Tokenizer Doc Builder Parse Api.
 From RX.Spec Require Import Tree.
-From RX.Proofs Require Import ApiTotal PositionProofs.
+From RX.Model Require Import Debug.
+From RX.Proofs Require Import ApiTotal PositionProofs DebugTotal.
 Open Scope N_scope.
 
 (* ---- Proofs/ApiTotal.v ---- *)
@@ -45,3 +46,16 @@ Theorem C10_text_pos_total_valid :
   exists rc, text_pos_at text p = Ok rc.
 Proof. exact text_pos_total_valid. Qed.
 Print Assumptions C10_text_pos_total_valid.
+
+(* ---- Proofs/DebugTotal.v ---- *)
+Theorem C10_debug_total :
+  forall text opt d, valid_utf8_b text = true -> nodes_limit opt <= u32_max -> parse text opt = Ok d ->
+  exists lines maxh, debug_document d = Ok (lines, maxh).
+Proof. exact debug_total. Qed.
+Print Assumptions C10_debug_total.
+
+Theorem C10_debug_stack_bounded :
+  forall text opt d lines maxh, valid_utf8_b text = true -> nodes_limit opt <= u32_max ->
+  parse text opt = Ok d -> debug_document d = Ok (lines, maxh) -> maxh <= len_N (d_nodes d).
+Proof. exact debug_stack_bounded. Qed.
+Print Assumptions C10_debug_stack_bounded.
